@@ -54,6 +54,9 @@ type Case struct {
 	// ExtForm[i-1]: the Go representation of external lookup i (see extForm* in model_test.go);
 	// missing entries mean the pointer form
 	ExtForm []int `json:"ext_form,omitempty"`
+	// ExtBad[i-1]: which unusable answers (nil error, a reflect.Value that cannot be handed out) external
+	// lookup i gives for the names extBadNames[i] (see extBad* in model_test.go); missing entries mean none
+	ExtBad []int `json:"ext_bad,omitempty"`
 }
 
 const maxLive = 12
@@ -101,6 +104,11 @@ func renderHistory(c Case, upto int) string {
 	for i, f := range c.ExtForm {
 		if i < 3 && normExtForm(f) != extFormPtr {
 			fmt.Fprintf(&b, "ext%d is a %s\n", i+1, extFormNames[normExtForm(f)])
+		}
+	}
+	for i, m := range c.ExtBad {
+		if i < 3 && normExtBad(m) != 0 {
+			fmt.Fprintf(&b, "ext%d answers %q with a nil error and an unusable value (%s)\n", i+1, extBadNames[i+1], extBadModeNames[normExtBad(m)])
 		}
 	}
 	fmt.Fprintf(&b, "s0 = env.NewEnv() ext%d\n", c.RootExt)
@@ -239,6 +247,24 @@ func genExtForms(t *rapid.T) []int {
 	return f
 }
 
+// genExtBad draws the unusable answers of the three external lookups of a case: none in `none` of 10 cases,
+// otherwise a mode per lookup. Drawn after all other draws of a case.
+func genExtBad(t *rapid.T, none int) []int {
+	if rapid.IntRange(0, 9).Draw(t, "extbad?") < none {
+		return nil
+	}
+	b := []int{0, 0, 0}
+	any := false
+	for i := range b {
+		b[i] = rapid.IntRange(0, nExtBadModes-1).Draw(t, "extbad")
+		any = any || b[i] != 0
+	}
+	if !any {
+		return nil
+	}
+	return b
+}
+
 // kpath is a generator-side guess "path resolves when looked up from scope anchor"
 // (only a bias for GetEnvFromPath; the oracle does not use it).
 type kpath struct {
@@ -289,8 +315,80 @@ func genShadowed(t *rapid.T) Case {
 		}
 	}
 	c.ExtForm = genExtForms(t)
+	c.ExtBad = genExtBad(t, 5)
 	return c
 }
+
+// genLookups scripts the histories around external lookups the random mix reaches only now and then: a chain
+// of 2..5 scopes most of which carry a lookup, one focal name bound (or not) in the table of an outer scope,
+// then reads (Get / GetValue / Addr), writes (Set / SetValue / DeleteGlobal / Delete / Define) and lookup
+// changes (SetExternalLookup, Copy, DeepCopy, a further child) addressed mostly at the inner scopes. The
+// lookups answer unusably (Case.ExtBad) in 8 of 10 cases.
+func genLookups(t *rapid.T) Case {
+	ext := func() int {
+		if rapid.IntRange(0, 9).Draw(t, "lookup?") < 7 {
+			return rapid.IntRange(1, 3).Draw(t, "ext")
+		}
+		return 0
+	}
+	c := Case{RootExt: ext()}
+	depth := rapid.IntRange(1, 4).Draw(t, "depth")
+	for d := 0; d < depth; d++ {
+		c.Ops = append(c.Ops, Op{Op: "NewEnv", S: -1, Ext: ext()})
+	}
+	live := depth + 1
+	focal := rapid.SampledFrom([]string{"a", "b", "m", "e", "c", "", "bool", "int64", "a.b"}).Draw(t, "focal")
+	name := func() string {
+		if rapid.IntRange(0, 9).Draw(t, "othername") == 0 {
+			return rapid.SampledFrom(nameDraw).Draw(t, "name")
+		}
+		return focal
+	}
+	outer := func() int { return rapid.IntRange(0, live-1).Draw(t, "outer") }            // favours the outer scopes
+	inner := func() int { return live - 1 - rapid.IntRange(0, live-1).Draw(t, "inner") } // favours the inner scopes
+	val := func(valueForm bool) *Val {
+		k := rapid.SampledFrom([]string{"int", "addr", "str", "nil"}).Draw(t, "vk")
+		if k == "addr" && !valueForm {
+			k = "int"
+		}
+		return &Val{K: k, N: len(c.Ops) + 1}
+	}
+	for i := rapid.IntRange(0, 2).Draw(t, "binds"); i > 0; i-- {
+		if rapid.Bool().Draw(t, "valueform") {
+			c.Ops = append(c.Ops, Op{Op: "DefineValue", S: outer(), Name: name(), V: val(true)})
+		} else {
+			c.Ops = append(c.Ops, Op{Op: "Define", S: outer(), Name: name(), V: val(false)})
+		}
+	}
+	for i := rapid.IntRange(2, 10).Draw(t, "nops"); i > 0; i-- {
+		op := Op{Op: rapid.SampledFrom(lookupOps).Draw(t, "op"), S: inner(), Name: name()}
+		switch op.Op {
+		case "Set", "Define":
+			op.V = val(false)
+		case "SetValue", "DefineValue":
+			op.V = val(true)
+		case "SetExternalLookup":
+			op.Name = ""
+			op.Ext = rapid.IntRange(0, 3).Draw(t, "ext")
+		case "NewEnv":
+			op.Name = ""
+			op.Ext = ext()
+			live++
+		case "Copy", "DeepCopy":
+			op.Name = ""
+			live++
+		case "Define@outer":
+			op.Op, op.S, op.V = "Define", outer(), val(false)
+		}
+		c.Ops = append(c.Ops, op)
+	}
+	c.ExtForm = genExtForms(t)
+	c.ExtBad = genExtBad(t, 2)
+	return c
+}
+
+var lookupOps = smooth([]wop{{"Set", 5}, {"SetValue", 3}, {"Get", 3}, {"GetValue", 3}, {"Addr", 3}, {"DeleteGlobal", 3}, {"Delete", 1},
+	{"Define", 1}, {"DefineValue", 1}, {"Define@outer", 2}, {"SetExternalLookup", 3}, {"Copy", 1}, {"DeepCopy", 1}, {"NewEnv", 1}})
 
 func genWith(t *rapid.T, pr *profile) Case {
 	c := Case{RootExt: genExt(t)}
@@ -413,6 +511,7 @@ func genWith(t *rapid.T, pr *profile) Case {
 		c.Ops = append(c.Ops, op)
 	}
 	c.ExtForm = genExtForms(t)
+	c.ExtBad = genExtBad(t, 5)
 	return c
 }
 
@@ -577,7 +676,7 @@ func (r *run) checkResult(step int, op Op, oc outcome, g got) *h.Fail {
 	}
 	if oc.val != nil {
 		if !g.valid {
-			return r.fail(step, "C12|result|"+name+"|invalid-value", "step %d %s: returned an invalid reflect.Value without error, want %s", step, renderOp(op), oc.val.String())
+			return r.fail(step, "C12|result|"+name+"|invalid-value", "step %d %s: returned a reflect.Value that cannot be used (the zero Value, or one that cannot be turned into an interface{}) without error, want %s", step, renderOp(op), oc.val.String())
 		}
 		if !same(*oc.val, g.v) {
 			return r.fail(step, "C12|result|"+name+"|wrong-value", "step %d %s: returned %s, the nearest binding is %s", step, renderOp(op), g.v.String(), oc.val.String())
@@ -769,14 +868,24 @@ func (r *run) step(i int, op Op, o *h.Obs) *h.Fail {
 			old := target.values[name]
 			one(outcome{apply: func() { target.values[name] = mv }, undo: func() { target.values[name] = old }})
 			if shadow {
-				// an external lookup nearer than the table binding knows the name: the
-				// statement does not say whether set may skip it → "fails, nothing changed" is admitted too
+				// an external lookup nearer than the table binding serves the name. For lookups the statement
+				// counts a lookup's answer as a binding ("nearest enclosing binding (a scope's external lookup is
+				// consulted after its own table ...)"), so the nearest existing binding is one that cannot be
+				// written; "set updates the nearest existing binding or fails without creating one" then allows
+				// the failure as well as - reading "binding" as table entry, what the tree does - the update
+				// further out (after which a Get from here still returns the lookup's value). Not decided by
+				// the statement → "fails, nothing changed" is admitted too (seeded change C12-31: not claimed)
 				one(outcome{err: true})
 				o.Class("set:ext-shadow-ambiguous")
 			} else if target == nd {
 				o.Class("set:own")
 			} else {
 				o.Class("set:ancestor")
+			}
+			if mpastUnusable(nd, name, true) {
+				// a lookup on the way answers the name with a value that cannot be handed out: not a binding in
+				// any reading, so the table entry further out is the nearest existing binding (no alternative)
+				o.Class("set:past-unusable-ext-answer")
 			}
 		}
 
@@ -793,7 +902,7 @@ func (r *run) step(i int, op Op, o *h.Obs) *h.Fail {
 			call = func() {
 				var rv reflect.Value
 				rv, g.err = e.GetValue(name)
-				if g.err == nil && rv.IsValid() {
+				if g.err == nil && rv.IsValid() && rv.CanInterface() {
 					g.valid, g.v = true, r.conv(rv.Interface())
 				}
 			}
@@ -805,6 +914,9 @@ func (r *run) step(i int, op Op, o *h.Obs) *h.Fail {
 			one(outcome{err: true})
 		}
 		o.Class("get:" + where)
+		if mpastUnusable(nd, name, false) {
+			o.Class("get:past-unusable-ext-answer:" + where)
+		}
 
 	case "Addr":
 		call = func() {
@@ -813,6 +925,9 @@ func (r *run) step(i int, op Op, o *h.Obs) *h.Fail {
 			_ = rv
 		}
 		mv, where, ok := mget(nd, name)
+		if mpastUnusable(nd, name, false) {
+			o.Class("addr:past-unusable-ext-answer:" + where)
+		}
 		switch {
 		case !ok:
 			one(outcome{err: true})
@@ -859,6 +974,9 @@ func (r *run) step(i int, op Op, o *h.Obs) *h.Fail {
 				o.Class("deleteglobal:own")
 			} else {
 				o.Class("deleteglobal:ancestor")
+			}
+			if mpastUnusable(nd, name, true) {
+				o.Class("deleteglobal:past-unusable-ext-answer")
 			}
 		}
 
@@ -938,7 +1056,7 @@ func (r *run) step(i int, op Op, o *h.Obs) *h.Fail {
 		one(outcome{apply: func() { nd.ext = x }, undo: func() { nd.ext = old }})
 		o.Class("setext:%d", op.Ext&3)
 		if x != nil {
-			o.Class("ext-installed:" + extFormNames[x.form])
+			classExt(o, x)
 		}
 
 	case "NewEnv":
@@ -953,7 +1071,7 @@ func (r *run) step(i int, op Op, o *h.Obs) *h.Fail {
 		newNode = newModelNode(nd, x)
 		one(outcome{})
 		if x != nil {
-			o.Class("ext-installed:" + extFormNames[x.form])
+			classExt(o, x)
 		}
 
 	case "NewRoot":
@@ -968,7 +1086,7 @@ func (r *run) step(i int, op Op, o *h.Obs) *h.Fail {
 		newNode = newModelNode(nil, x)
 		one(outcome{})
 		if x != nil {
-			o.Class("ext-installed:" + extFormNames[x.form])
+			classExt(o, x)
 		}
 
 	case "NewModule":
@@ -1098,9 +1216,27 @@ func (r *run) step(i int, op Op, o *h.Obs) *h.Fail {
 	return nil
 }
 
+// classExt counts an installed external lookup by Go representation and by kind of unusable answers.
+func classExt(o *h.Obs, x *mext) {
+	o.Class("ext-installed:" + extFormNames[x.form])
+	if len(x.unusable) == 0 {
+		o.Class("ext-installed:unusable-answers:none")
+		return
+	}
+	kinds := [4]bool{}
+	for _, k := range x.unusable {
+		kinds[k&3] = true
+	}
+	for k := 1; k < 4; k++ {
+		if kinds[k] {
+			o.Class("ext-installed:unusable-answers:" + extBadKindNames[k])
+		}
+	}
+}
+
 func oracle(c Case, o *h.Obs) *h.Fail {
 	r := &run{c: c, idx: map[*env.Env]int{}, touched: map[int]bool{}, copied: map[int]bool{}}
-	r.exts = newExts(c.ExtForm)
+	r.exts = newExts(c.ExtForm, c.ExtBad)
 
 	var root *env.Env
 	r.cur = "NewEnv"
@@ -1119,7 +1255,7 @@ func oracle(c Case, o *h.Obs) *h.Fail {
 	}
 	r.addLive(root, newModelNode(nil, x))
 	if x != nil {
-		o.Class("ext-installed:" + extFormNames[x.form])
+		classExt(o, x)
 	}
 	delete(r.touched, 0)
 	if f := r.checkState(-1, Op{Op: "NewRoot", Ext: c.RootExt}, 0); f != nil {
@@ -1189,6 +1325,22 @@ func oracle(c Case, o *h.Obs) *h.Fail {
 			o.Class("chain-with-two-lookups:" + k)
 		}
 	}
+	// final state: some scope sees a table binding / a lookup's binding / nothing behind a lookup that
+	// answers the name with an unusable value
+	behind := map[string]bool{}
+	for _, nd := range r.nodes {
+		for _, nm := range poolNames {
+			if mpastUnusable(nd, nm, false) {
+				_, where, _ := mget(nd, nm)
+				behind[where] = true
+			}
+		}
+	}
+	for _, k := range []string{"ancestor", "ext-own", "ext-ancestor", "undefined"} {
+		if behind[k] {
+			o.Class("final-state:unusable-ext-answer-then:" + k)
+		}
+	}
 	o.Note = strings.ReplaceAll(renderHistory(c, len(c.Ops)), "\n", "; ")
 	return nil
 }
@@ -1202,4 +1354,6 @@ func TestC12(t *testing.T) {
 	h.Run(c, "shadowed", c.N(3000, 30000), genShadowed, oracle)
 	c.Rule("sub-check 'modules': same oracle and non-triviality rule, op mix concentrated on NewModule/GetEnvFromPath/Define/Delete/DeleteGlobal/Set/Copy/DeepCopy over the names {a,b,m,c,e,\"\",a.b} so that module paths of length 2 and 3 resolve often")
 	h.Run(c, "modules", c.N(1500, 15000), genModules, oracle)
+	c.Rule("external lookups with unusable answers (all sub-checks; none in half of the cases of the three sub-checks above): a lookup answers some names it does not serve with a nil error and a reflect.Value that cannot be handed out (the zero Value, a value read from an unexported field, the same of an addressable struct); the model treats that as a miss; sub-check 'lookups': scripted histories - a chain of 2-5 scopes most of which carry a lookup, a focal name bound or not in an outer table, then Get/GetValue/Addr/Set/SetValue/DeleteGlobal/Delete/Define/SetExternalLookup/Copy/DeepCopy/NewEnv mostly on the inner scopes; same oracle and non-triviality rule")
+	h.Run(c, "lookups", c.N(1500, 15000), genLookups, oracle)
 }
